@@ -109,6 +109,8 @@ def generate(rng, i, tier):
         "rows": rows,
         "members": members,
         "runs": runs,
+        # every clock read may move the simulated clock on (0 = frozen): elapsed times are then non-zero
+        "step_us": rng.choice([0, 0, 700, 250000]),
         "policy": rng.choice(POLICIES),
         "dialect": dialect,
     }
@@ -133,6 +135,8 @@ def reductions(sc):
             yield c
     if sc["dialect"] != [",", '"']:
         yield with_(sc, dialect=[",", '"'])
+    if sc.get("step_us"):
+        yield with_(sc, step_us=0)
     for j, r in enumerate(sc["runs"]):
         if r.get("failed_call_before"):
             c = with_(sc)
@@ -338,7 +342,7 @@ def execute(sc):
     out = Out()
     install_tee()
     TEE.clear()
-    seams.reset(sc["seed"], listdir_salt=sc.get("listdir_salt"))
+    seams.reset(sc["seed"], step_us=sc.get("step_us", 0), listdir_salt=sc.get("listdir_salt"))
     delim, quote = sc["dialect"]
     texts = [gen.render(m) for m in sc["members"]]
     with W.World(csvpath_policy=sc["policy"]) as w:
